@@ -33,13 +33,16 @@ class Problem:
         self.dim = t.irange(1, 4)
         self.dtype = dtype or t.choice(M.DTYPES)
         self.metric_name = metric or t.choice(('euclidean', 'euclidean', 'manhattan', 'callable', 'euclidean', 'manhattan', 'callable',
-                                               'callable_reuse'))
+                                               'callable_reuse', 'callable_sq'))
         self.jitter = not t.flag(1, 8)
         self.scale = 1.0
         if allow_rmsd and dtype is None and metric is None and self.n >= 3 and t.flag(1, 8):
             # the library's main use: molecular trajectories compared by RMSD after optimal superposition
             self.metric_name = 'rmsd'
             self.rmsd_as_callable = t.flag(1, 3)
+            self.precentred = t.flag(1, 4)          # the caller has already run center_coordinates() on what it hands over
+            if self.precentred:
+                ctx.hit('rmsd_precentred_input')
             self.dtype = 'float32'
             self.atoms = self.dim = t.irange(6, 10)     # 4-atom frames are degenerate enough for a self-RMSD above 1e-3, which k-medoids' own consistency assert rejects
             if self.n > 40:
@@ -78,6 +81,10 @@ class Problem:
         """absolute uncertainty of a reported distance beyond the relative tolerance (zero except for RMSD)"""
         return M.noise_for(self.metric_name)(d)
 
+    def is_metric(self):
+        """does the distance obey the triangle inequality (needed by the shortcut and by the 2-approximation bound)?"""
+        return self.metric_name not in M.NON_METRIC
+
     def sut_metric(self):
         if self.metric_name == 'rmsd':
             import mdtraj as md
@@ -88,7 +95,10 @@ class Problem:
         """the object the library is given for these coordinates: the array itself, or an md.Trajectory of them"""
         if self.metric_name != 'rmsd':
             return arr
-        return M.as_traj(arr)
+        tr = M.as_traj(arr)
+        if getattr(self, 'precentred', False):
+            tr.center_coordinates()         # also caches the per-frame traces on the object
+        return tr
 
     def unwrap(self, obj):
         return np.asarray(obj.xyz) if hasattr(obj, 'xyz') else obj
